@@ -91,16 +91,36 @@ partial def runWorld (w : World) (pts : List (Nat × List Float)) (acc : List Fl
     | _ => none
   | _ => none
 
+/-- `r` read n (emits it) | `w <mu> <sma>` in-place write | `c` the object is replaced by its copy -/
+partial def runMemo (m : Memo) (acc : List Float) : List String → Option (List Float)
+  | [] => some acc
+  | "r" :: rest => let (v, m') := m.read; runMemo m' (acc ++ [v]) rest
+  | "c" :: rest => runMemo m.copy acc rest
+  | "w" :: rest => do
+    let (fs, rest) ← takeFloats 2 rest
+    match fs with
+    | [mu, sma] => runMemo (m.write mu sma) acc rest
+    | _ => none
+  | _ => none
+
 /-- `cw <tnw 0|1> <n> <t> <x0..x5> <mans…>` → six floats: `propagate` from epoch 0 to time t
     `cw0 <tnw> <n> <t> <t0> <x0..x5> <mans…>` → `propagate` of an orbit dated `t0` (a propagated orbit that still carries the list)
     `cwref <n> <t> <t0> <x0..x5> <mans…>` → `hillSol`, the reference solution (QSW)
     `cwfix <n> <t> <t0> <x0..x5> <mans…>` → `cwPropagateFixed` (the sequencing of the proposed fix, QSW)
     `cwstep <tnw> <n> <t> <x0..x5> <a0..a2>` → `_propagate` with acceleration
     `cwmat <n> <t>` → the 36 + 18 matrix entries
+    `memo <mu> <sma> <r | w mu sma | c …>` → the reads of n of one propagator object along a history of writes / copies (`runMemo`)
     `world <tnw0> <mu0> <history…>` → what the reads of the history return (`runWorld`; object model Model/CWFrames)
     `helper <tnw> coelliptic|hohmann|eccentric|tangential|vbar <n> <3 arguments in the order of the Python signature; continuous as 0/1>`
        → the translated `CWHelper` method (Generated/CWHelperF.lean): state, or maneuvers flattened by `flatMans` -/
 def handle : List String → Option String
+  | "memo" :: rest => some <|
+    match takeFloats 2 rest with
+    | some ([mu, sma], ops) =>
+      match runMemo ⟨mu, sma, none⟩ [] ops with
+      | some fs => fsToStr fs
+      | none => "bad-op"
+    | _ => "bad-op"
   | "world" :: rest => some <|
     match takeFloats 2 rest with
     | some ([tnw0, mu0], ops) =>
